@@ -613,7 +613,6 @@ pub fn c13(a: &Analysis, v: &mut Verdict, prop: &str) {
 // aborts are attributed by the driver)
 
 pub fn c07(a: &Analysis, v: &mut Verdict) {
-    let log = &a.hist.out.log;
     let mut reentrant = 0u64;
     for (o, out) in a.hist.ops.iter().enumerate() {
         if !out.executed {
